@@ -16,6 +16,10 @@ run(rep, tier, seed, drv):
     `expm([[A, |s><g|],[0, A]])[:n, n:]` (scipy), A = -i dt H, H random Hermitian / chain / block / degenerate, dim 2-64.
   * numeric oracle on the REAL `EvolveStateVector.backward`: all five gradients vs `Re <g| L(A, -i dt dH/dp) |psi>` with the
     dense Frechet derivative L (scipy `expm_frechet`) and analytic dense dH/dp (numpy kron), state gradient vs `expm(A)^H g`.
+  * degenerate Krylov spaces on the REAL `lanczos` / `double_krylov` (op annihilates the start vector exactly: zero operator, vector
+    in the kernel; exact eigenvector): must return one vector and the 1x1 T, finite, and the dense Frechet derivative.
+  * REAL `EvolveStateVector` forward+backward through a two-step schedule from |g...g> whose first step has amplitude exactly 0
+    (N = 1, 2, 4) vs the dense chain (scipy expm / expm_frechet): no exception, finite, equal; the schedule is the replay.
 Tolerances (calibrated on the clean tree, 9000 + 2000 cases): see TOL_* below.
 """
 from __future__ import annotations
@@ -581,11 +585,14 @@ def eval_frechet_case(c):
     if dU.shape != ref.shape:
         return float("inf"), f"Vs^T @ dS @ Vg* has shape {dU.shape}", None
     scale = float(np.linalg.norm(c["s"]) * np.linalg.norm(c["g"]))
+    if not np.all(np.isfinite(dU)):
+        return float("inf"), f"Vs^T dS Vg* has non-finite entries (sizes {len(Vs)}, {len(Vg)})", None
     err = float(np.abs(dU - ref).max())
     parsed = [r.parse() for r in rec.runs]
     a_all = float(np.linalg.norm(c["A"], 2))
     if len(parsed) == 2 and all(p is not None and p["ns"] for p in parsed):
-        a_eff = min(min(p["ns"]) for p in parsed)
+        pos_ns = [x for p in parsed for x in p["ns"] if x > 0]      # ||op(q)|| = 0 exactly: that run is an exact breakdown
+        a_eff = min(pos_ns) if pos_ns else a_all
         exact = all(p["n2s"][-1] <= EXACT_N2 for p in parsed)
     else:
         a_eff, exact = a_all, False
@@ -732,6 +739,206 @@ def oracle_backward(rep: Report, seed: int, count: int) -> None:
     rep.extra["dk_backward_worst_ratio"] = worst
 
 
+# ------------------------------------------------------------------------------------------------ degenerate Krylov spaces
+def gen_degenerate_case(case_seed: int):
+    """`op` annihilates a start vector EXACTLY (zero operator; H with an exactly zero row/column and the vector on that basis
+    state) or the start vector is an exact eigenvector (1-dimensional Krylov space, n2 = 0 exactly): `lanczos` must return
+    one vector and a 1x1 T. Entries of H are exact zeros where needed, the vectors are positive multiples of a basis vector,
+    so `op(v)` and `w` are exactly zero in binary64."""
+    np, torch = _np()
+    rng = random.Random(case_seed)
+    sub = rng.choice(["zero-op", "kernel-state", "kernel-grad", "kernel-both", "eigen-state", "eigen-both", "kernel-state-eigen-grad"])
+    n = rng.randint(1, 9) if sub in ("zero-op",) else rng.randint(2, 9)
+    g_ = np.random.default_rng(rng.getrandbits(48))
+    G = g_.normal(size=(n, n)) + 1j * g_.normal(size=(n, n))
+    H = (G + G.conj().T) / 2
+    H = H / max(np.linalg.norm(H, 2), 1e-300) * rng.choice([0.05, 0.5, 2.0, 5.0])
+    k1, k2 = rng.randrange(n), rng.randrange(n)
+    if n > 1 and k2 == k1 and rng.random() < 0.5:
+        k2 = (k1 + 1) % n
+    basis = lambda k: np.eye(n, dtype=complex)[k] * rng.choice([1.0, 0.5, 2.0, 0.01, 30.0])
+    s = gen_vec(rng, n)
+    g = gen_vec(rng, n)
+    exp_s = exp_g = None                 # expected 1x1 T entry (in units of op = -i H), None = generic run
+    if sub == "zero-op":
+        H = np.zeros((n, n), dtype=complex)
+        exp_s = exp_g = 0.0
+    else:
+        lam1, lam2 = rng.choice([0.0, 0.75, -2.5]), rng.choice([0.0, 1.25])
+        if sub.startswith("kernel"):
+            lam1 = 0.0
+        if sub in ("kernel-both",):
+            lam2 = 0.0
+        for k, lam in ((k1, lam1), (k2, lam2)):
+            H[k, :] = 0
+            H[:, k] = 0
+        H[k1, k1] = lam1
+        if k2 != k1:
+            H[k2, k2] = lam2
+        if sub in ("kernel-state", "eigen-state", "kernel-both", "eigen-both", "kernel-state-eigen-grad"):
+            s = basis(k1)
+            exp_s = -1j * lam1
+        if sub in ("kernel-grad", "kernel-both", "eigen-both", "kernel-state-eigen-grad"):
+            kk = k2 if sub != "kernel-grad" else k1
+            g = basis(kk)
+            exp_g = -1j * (lam1 if kk == k1 else lam2)
+    tol = 10.0 ** (-rng.randint(6, 12))
+    return dict(kind="degenerate/" + sub, n=n, A=-1j * H, s=s, g=g, tol=tol, vec=sub, case_seed=case_seed, exp_s=exp_s, exp_g=exp_g)
+
+
+def eval_degenerate_case(c):
+    """problems (list of strings) of the real `lanczos` / `double_krylov` on a degenerate case"""
+    np, torch = _np()
+    import emu_base.math.double_krylov as dkm
+    A = torch.tensor(c["A"])
+    probs = []
+    for name, v, expT in (("state", c["s"], c["exp_s"]), ("grad", c["g"], c["exp_g"])):
+        if expT is None:
+            continue
+        try:
+            qs, T = dkm.lanczos(lambda x: A @ x, torch.tensor(v), c["tol"])
+        except Exception as e:
+            probs.append(f"lanczos(op, {name}) with op({name}) = {'0' if expT == 0 else 'lambda*' + name} exactly raised {type(e).__name__}: {e}")
+            continue
+        if len(qs) != 1 or tuple(T.shape) != (1, 1):
+            probs.append(f"lanczos(op, {name}): 1-dimensional Krylov space but {len(qs)} vectors, T of shape {tuple(T.shape)}")
+        elif not bool(torch.isfinite(torch.view_as_real(T)).all()) or abs(complex(T[0, 0]) - expT) > 1e-13:
+            probs.append(f"lanczos(op, {name}): T = {complex(T[0, 0])!r}, expected {expT!r}")
+        if not all(bool(torch.isfinite(torch.view_as_real(q)).all()) for q in qs):
+            probs.append(f"lanczos(op, {name}): non-finite Lanczos vector")
+    ex, detail, _ = eval_frechet_case(c)
+    if ex > 0 or ex != ex:
+        probs.append("double_krylov: " + detail)
+    return probs
+
+
+def oracle_degenerate(rep: Report, seed: int, count: int) -> None:
+    nfail = 0
+    for i in range(count):
+        case_seed = seed * 1000003 + 7 * i + 2
+        c = gen_degenerate_case(case_seed)
+        info = dict(kind="dk-degenerate", family=c["kind"], n=c["n"], tol=c["tol"], case_seed=case_seed)
+        rep.case(key=("dk-degenerate", case_seed), nontrivial=True, trace=False)
+        rep.hist("dk_degenerate_family", c["vec"])
+        probs = eval_degenerate_case(c)
+        if probs:
+            nfail += 1
+            rep.fail("; ".join(probs), info)
+            if nfail >= 5:               # a broken breakdown test makes every such call run to max_krylov_dim: enough evidence
+                rep.extra["dk_degenerate_stopped_after"] = i + 1
+                break
+    rep.extra["dk_degenerate_cases"] = count
+
+
+# ------------------------------------------------------------------------------------------------ zero first step
+def gen_zero_step_case(case_seed: int):
+    """two-step schedule from |g…g>; the FIRST step has amplitude exactly 0 (detuning 0 or arbitrary - n|g> = 0 either way -,
+    phase 0 or arbitrary, U arbitrary), so H_1 annihilates the state exactly; the second step is generic"""
+    np, torch = _np()
+    rng = random.Random(case_seed)
+    n = rng.choice([1, 2, 4])
+    g_ = np.random.default_rng(rng.getrandbits(48))
+    om = np.stack([np.zeros(n), 1.0 + np.abs(g_.normal(size=n)) * 3])
+    de = np.stack([np.zeros(n) if rng.random() < 0.5 else g_.normal(size=n) * 4, g_.normal(size=n) * 4])
+    ph = np.stack([np.zeros(n) if rng.random() < 0.5 else g_.normal(size=n), np.zeros(n) if rng.random() < 0.3 else g_.normal(size=n)])
+    U = np.abs(g_.normal(size=(n, n))) * 3
+    U = np.triu(U, 1) + np.triu(U, 1).T
+    r = g_.normal(size=2 ** n) + 1j * g_.normal(size=2 ** n)
+    w = g_.normal(size=n)
+    dts = [rng.choice([0.01, 0.1, 0.5]), rng.choice([0.05, 0.2, 0.5])]
+    tol = 10.0 ** (-rng.randint(8, 12))
+    return dict(n=n, om=om, de=de, ph=ph, U=U, r=r, w=w, dts=dts, tol=tol, case_seed=case_seed)
+
+
+def eval_zero_step_case(c):
+    """(problem or None, worst ratio) — forward + backward of the real EvolveStateVector through both steps vs the dense chain
+    (scipy expm / expm_frechet, numpy-kron H): loss L = Re<r|psi> + sum_k w_k <n_k>"""
+    np, torch = _np()
+    import scipy.linalg as sla
+    from harness import compat, treevec_io as tio
+    compat.install()
+    from emu_sv.time_evolution import EvolveStateVector
+    n = c["n"]
+    t = lambda x: torch.tensor(x, dtype=torch.float64).requires_grad_(True)
+    om, de, ph, U = t(c["om"]), t(c["de"]), t(c["ph"]), t(c["U"])
+    psi0 = np.zeros(2 ** n, dtype=complex)
+    psi0[0] = 1.0
+    st = torch.tensor(psi0).requires_grad_(True)
+    occ = sum(c["w"][k] * tio.np_embed(n, k, tio.NOP) for k in range(n))
+    Mt, rt = torch.tensor(occ), torch.tensor(c["r"])
+    try:
+        psi = st.clone()
+        for s_ in range(2):
+            psi, _ = EvolveStateVector.apply(c["dts"][s_], om[s_], de[s_], ph[s_], U, psi, c["tol"], None)
+        L = torch.vdot(rt, psi).real + torch.vdot(psi, Mt @ psi).real
+        grads = torch.autograd.grad(L, [om, de, ph, U, st], allow_unused=True)
+    except Exception as e:
+        return f"raised {type(e).__name__}: {e}", None
+    # dense chain
+    Hs = [tio.np_dense_h(c["om"][s_], c["de"][s_], np.cos(c["ph"][s_]), np.sin(c["ph"][s_]), c["U"], n) for s_ in range(2)]
+    Us = [sla.expm(-1j * c["dts"][s_] * Hs[s_]) for s_ in range(2)]
+    psi1 = Us[0] @ psi0
+    psi2 = Us[1] @ psi1
+    out_dev = float(np.abs(psi.detach().numpy() - psi2).max())
+    g2 = c["r"] + 2 * occ @ psi2
+    g1 = Us[1].conj().T @ g2
+    refs = [dense_backward(dict(n=n, dt=c["dts"][0], om=c["om"][0], de=c["de"][0], ph=c["ph"][0], U=c["U"], psi=psi0, g=g1)),
+            dense_backward(dict(n=n, dt=c["dts"][1], om=c["om"][1], de=c["de"][1], ph=c["ph"][1], U=c["U"], psi=psi1, g=g2))]
+    want = dict(omega=np.stack([refs[0]["omega"], refs[1]["omega"]]), delta=np.stack([refs[0]["delta"], refs[1]["delta"]]),
+                phi=np.stack([refs[0]["phi"], refs[1]["phi"]]), U=refs[0]["U"] + refs[1]["U"], state=refs[0]["state"])
+    gn = float(np.linalg.norm(g2))
+    amp = 1.0
+    for A_, v in ((refs[0]["A"], psi0), (refs[0]["A"], g1 / gn), (refs[1]["A"], psi1), (refs[1]["A"], g2 / gn)):
+        a = float(np.linalg.norm(A_ @ v))
+        if a > 0:                                  # a = 0: exact breakdown, no truncation error from that run
+            amp = max(amp, 0.1 / a)
+    if out_dev > 100 * c["tol"] * amp + 1e-7:
+        return f"forward result deviates from expm by {out_dev:.2e}", None
+    worst = 0.0
+    for name, got in zip(["omega", "delta", "phi", "U", "state"], grads):
+        if got is None:
+            return f"no gradient for {name}", None
+        got = got.detach().numpy()
+        if not np.all(np.isfinite(got)):
+            return f"non-finite gradient d/d{name}: {got.reshape(-1)[:6].tolist()}", None
+        op_norm = max(1.0, float(np.abs(c["om"]).max()) / 2) if name == "phi" else 1.0
+        sc = (max(c["dts"]) * gn * op_norm if name != "state" else gn) * 2
+        allow = TOL_BW * c["tol"] * amp * sc + (TOL_EXACT + KERNEL_CAP) * sc
+        dev = float(np.abs(got - want[name]).max())
+        worst = max(worst, dev / allow * TOL_BW)
+        if dev > allow:
+            idx = np.unravel_index(int(np.abs(got - want[name]).argmax()), got.shape)
+            return (f"d/d{name}{list(map(int, idx))}: backward {got[idx]!r} vs dense Frechet chain {want[name][idx]!r} "
+                    f"(|diff| {dev:.2e}, allowed {allow:.2e})"), worst
+    return None, worst
+
+
+def _ser_schedule(c):
+    return dict(n=c["n"], dts=c["dts"], tol=c["tol"], omega=c["om"].tolist(), delta=c["de"].tolist(), phi=c["ph"].tolist(),
+                U=c["U"].tolist(), initial_state="all atoms in |g>")
+
+
+def oracle_zero_first_step(rep: Report, seed: int, count: int) -> None:
+    worst, nfail = 0.0, 0
+    for i in range(count):
+        case_seed = seed * 1000003 + 7 * i + 4
+        c = gen_zero_step_case(case_seed)
+        info = dict(kind="dk-zero-step", case_seed=case_seed, schedule=_ser_schedule(c))
+        rep.case(key=("dk-zero-step", case_seed), nontrivial=True, trace=False)
+        rep.hist("dk_zero_step_n", c["n"])
+        prob, ratio = eval_zero_step_case(c)
+        if ratio is not None:
+            worst = max(worst, ratio)
+        if prob is not None:
+            nfail += 1
+            rep.fail("EvolveStateVector through a zero-amplitude first step from |g…g> (H_1 annihilates the state): " + prob, info)
+            if nfail >= 6:
+                rep.extra["dk_zero_step_stopped_after"] = i + 1
+                break
+    rep.extra["dk_zero_step_cases"] = count
+    rep.extra["dk_zero_step_worst_ratio"] = worst
+
+
 # ------------------------------------------------------------------------------------------------ second Lean stage
 PROP_MODULE = "EmuVerif.Props.C30Frechet"
 AUDIT = "Audit/C30Frechet.lean"
@@ -786,7 +993,9 @@ def run(rep: Report, tier: str, seed: int, drv: Driver | None = None) -> None:
     correspondence_aux(rep, drv, random.Random(seed * 7919 + 31), 30 if quick else 300)
     correspondence_dense(rep, drv, seed, 20 if quick else 200)
     oracle_frechet(rep, seed, 120 if quick else 2000)
+    oracle_degenerate(rep, seed, 40 if quick else 400)
     oracle_backward(rep, seed, 25 if quick else 300)
+    oracle_zero_first_step(rep, seed, 12 if quick else 120)
 
 
 def search(rep: Report, seed: int, count: int) -> None:
@@ -809,6 +1018,18 @@ def replay_one(d: dict) -> int | None:
         print(f"replay: EvolveStateVector.backward on case_seed={d['case_seed']} (n={c['n']}, dt={c['dt']}, tol={c['tol']:.0e}): {detail}",
               "FAILS" if ex > 0 else "holds now")
         return int(ex > 0)
+    if k == "dk-degenerate":
+        c = gen_degenerate_case(d["case_seed"])
+        probs = eval_degenerate_case(c)
+        print(f"replay: lanczos/double_krylov on degenerate case_seed={d['case_seed']} ({c['kind']}, n={c['n']}, tol={c['tol']:.0e}):",
+              "; ".join(probs) if probs else "1x1 T, finite, equals the dense Frechet derivative", "FAILS" if probs else "holds now")
+        return int(bool(probs))
+    if k == "dk-zero-step":
+        c = gen_zero_step_case(d["case_seed"])
+        prob, _ = eval_zero_step_case(c)
+        print(f"replay: EvolveStateVector, zero-amplitude first step from |g..g>, case_seed={d['case_seed']} (N={c['n']}):",
+              prob or "gradients finite and equal to the dense chain", "FAILS" if prob else "holds now")
+        return int(prob is not None)
     if k == "dk-tape":
         np, torch = _np()
         c = boundary_case(d["case_seed"]) if d.get("boundary") else gen_case(d["case_seed"], small=d.get("small", False))
